@@ -14,8 +14,9 @@ from harness.common import *
 from harness import c02 as P
 import vlib
 
-LEVEL_TEXT = ('Lean 4 theorems, for all tilt lists, angles, samplings and OPDs: the folded Field.shift is the sum of the individual '
-              'displacements and invariant under permutation; Tilt plane, Wavefront(tilt) and the fit_tilt record give the same shift; '
+LEVEL_TEXT = ('Lean 4 theorems, for all lists of tilt elements (angular, first-order dispersive, any-order dispersive given the abscissa its solver returns: '
+              'TiltEl.dispersiveN), angles, samplings and OPDs: the folded Field.shift is the sum of the individual '
+              'displacements and invariant under permutation (shift_additive, shift_perm_invariant, any_order_lists_add); Tilt plane, Wavefront(tilt) and the fit_tilt record give the same shift; '
               'Tilt(thx, thy) displaces by (+z·thx/du0·os rows, -z·thy/du1·os cols); at C/R a plane with the ramp thx·X·dx0 - thy·Y·dx1 in '
               'its OPD and the same plane carrying the tilt as metadata (any split) give the same complex value at every output sample both '
               'evaluate, for alpha = dx·du/(λ z os) (through C02 propagateField_sample); what fit_tilt subtracts is exactly the OPD ramp of '
@@ -23,9 +24,11 @@ LEVEL_TEXT = ('Lean 4 theorems, for all tilt lists, angles, samplings and OPDs: 
               '(lstsq contract) and the Gram matrix is non-singular, every least-squares fit of the remaining OPD has zero tip/tilt and the '
               'same piston; first-order dispersive displacement lies on its trace at arc length |d(λ)|; for trace/dispersion polynomials of any order, '
               'under the solver contract DispersiveSolved (both residuals handed to scipy.optimize.leastsq vanish; residuals and arc-length integrand are '
-              'regenerated from _dist_cost_func/_trace_cost_func/_trace_dist_func), dispersive_general_spec: the displacement lies on the trace polynomial, '
-              'the dispersion polynomial maps dist to the wavelength and dist is the arc length ∫√(1+T\'²) to the displacement; '
-              'first_order_closed_form_is_solution: the generated closed-form branch is exactly the solution of that contract. The field in the end-to-end theorems is the '
+              'regenerated from _dist_cost_func/_trace_cost_func/_trace_dist_func), dispersive_general_spec unfolds the contract (it fixes the FORM of what is handed to scipy — '
+              'displacement (x, T(x)), D(dist) = λ, dist = ∫√(1+T\'²) — it is not a result about the solvers); '
+              'first_order_closed_form_is_solution: the generated closed-form branch is exactly the solution of that contract; linear_trace_arc_length: with a linear trace the closed-form x '
+              'is at arc length dist for ANY dist (only the dispersion root stays a contract). fit_tilt_propagates_like_original composes the two halves: the plane fit_tilt returns '
+              '(its OPD, the recorded Tilt as metadata, any split) and the original plane give the same complex value at every output sample both evaluate, for ANY solver coefficients. The field in the end-to-end theorems is the '
               'plane model\'s segment phasor (C03/C07 segPhasor/planePh) and the theorem covers any list of angular elements; for a segmented plane '
               'whose segments carry DIFFERENT tilts, segmented_tilt_equiv_complex: the sum over segments of the per-segment propagations with tilt metadata '
               '(each split derived from its own Field.shift) equals the sum with each segment\'s ramp written into its OPD, at every sample all windows cover; the tilt lists of '
@@ -35,7 +38,9 @@ LEVEL_TEXT = ('Lean 4 theorems, for all tilt lists, angles, samplings and OPDs: 
 LEVEL_NOTE = ('Partial, two stated contracts: (1) np.linalg.lstsq returns a solution of the normal equations of the masked basis — the single trusted '
               'fact of the fit clause (hypothesis hN of fit_tilt_is_least_squares), re-solved independently and checked by the oracle on every case; '
               '(2) for DispersiveTilt of order > 1, scipy.optimize.leastsq/scipy.integrate.quad return a root of the generated residuals (DispersiveSolved), '
-              'checked numerically by the oracle on every generated element (on the trace; dispersion(arc length) = wavelength to 2e-6). '
+              'checked numerically by the oracle on every generated element (on the trace; dispersion(arc length) = wavelength to 2e-6); such elements run through the Float model '
+              'with the harness\' own root (np.roots + bisection on a Gauss-Legendre arc length), agreement to 2e-6. Two unit dependences of these solver calls violate the property at extreme '
+              'length scales and are OPEN known findings (KF-C04-fit-rank-cutoff-tiny-pixelscale, KF-C04-dispersive-solver-tiny-lengths; generated, matched; candidate patches exist). '
               'List aliasing / reuse of wavefronts (Field.__mul__, TiltInterface.multiply) is covered by correspondence + oracle (tilt lists are values in the model). '
               'Trusted: Lean kernel, generator coverage, NumPy einsum/lstsq as modelled.')
 TECHNIQUE = 'Lean 4 proof (induction over tilt lists / histories, ring, Real.sqrt) over translator-regenerated tilt/fit wiring + hand model with differential correspondence at Float'
@@ -52,15 +57,13 @@ RULE = ('cases: (shift) lists of 1..4 angular / first-order dispersive / higher-
 TRUSTED = ['scipy.optimize.leastsq / scipy.integrate.quad: root of the generated residual / the integral (contract DispersiveSolved)',
            'np.linalg.lstsq returns a solution of the normal equations of the masked basis (contract; hypothesis hN of fit_tilt_is_least_squares; the oracle re-solves them)',
            'np.einsum / reshape / broadcasting as modelled in Model/Tilt.lean; propagate_dft as modelled for C02']
-UNPROVEN = ['higher-order DispersiveTilt: that scipy.optimize.leastsq(x0=0) converges to a root of the generated residuals (contract DispersiveSolved; oracle on every element); such elements are not run through the Float model',
+UNPROVEN = ['higher-order DispersiveTilt: that scipy.optimize.leastsq(x0=0) converges to a root of the generated residuals (contract DispersiveSolved; oracle on every element; Float model fed the harness\' own root)',
             'lstsq solves the normal equations: the single trusted fact of the fit clause, checked numerically on every case',
-            'tilt-list sharing between products (aliasing) and Plane.copy in fit_tilt(inplace=False): correspondence + oracle']
-ASSUMPTIONS = ['planes with > 2**18 samples are generated for length scales >= 1e-6 only: with pixel scales ~1e-11 m and ~1e5 samples the tip column '
-               'of the unscaled basis [1, r*px, -c*px] falls below np.linalg.lstsq\'s rank cutoff (eps*N) and is dropped (recorded tilt 0): a unit-dependence of '
-               'the solver call, reported as an observation',
-               'higher-order DispersiveTilt is generated for length scales >= 1e-6 only: scipy.optimize.leastsq(x0=0) does not move at all when every '
-               'length is ~1e-16 (a scale dependence of the numerical root finding, physically irrelevant; first-order elements are exact at all scales)',
-               'binary masks, pairwise disjoint non-empty segments; least-squares uniqueness checked only when a segment has 3 non-collinear pixels',
+            'tilt-list sharing between products (aliasing) and Plane.copy in fit_tilt(inplace=False): correspondence + oracle',
+            'segmented_tilt_equiv_complex / tilt_representations_equiv_complex hold at samples inside every compared window only (outside one window that side is 0 by C02)']
+ASSUMPTIONS = ['binary masks, pairwise disjoint non-empty segments; least-squares uniqueness claimed and checked only when a segment has 3 non-collinear pixels (otherwise lstsq returns the minimum-norm solution; only opd + recorded tilt unchanged is checked)',
+               'OPD is a float array with more than one sample (fit_tilt returns the plane unchanged for a scalar / one-sample OPD; integer OPD arrays raise in `opd -= ...`): not generated',
+               'higher-order dispersive elements at length scales < 1e-6 and planes with > 2**18 samples at pixel scales < 3e-8 m are generated but not run through the model: they are the input classes of the two open known findings',
                'generated tilt shifts keep a fractional part in [0.05,0.95] so that np.fix is insensitive to rounding']
 
 WL, Z, KS = P.WL, P.Z, 1.0      # current case's base wavelength / focal length / length scale (set per case by `_use`)
@@ -230,9 +233,11 @@ def generate(rng, tier):
     for k in range({'quick': 10, 'thorough': 120, 'search': 120}[tier]):
         t = k % 10 if tier != 'search' else k % 20
         ks = float(rng.choice(SCALES))
-        if t in (9, 19) and (tier != 'search' or t == 9): one(lambda: _gen_fit_big(rng), max(ks, 1e-6) if tier != 'quick' else 1.0)
+        # the two unit-dependent solver calls (open known findings) are generated, not avoided: big planes and higher-order dispersive
+        # elements at every length scale (quick tier: big plane at scale 1 only, to keep it short)
+        if t in (9, 19) and (tier != 'search' or t == 9): one(lambda: _gen_fit_big(rng), ks if tier != 'quick' else 1.0)
         elif t in (8, 18): one(lambda: _gen_shift(rng, nmax=48, allow_high=False), ks)
-        elif t % 4 == 0: one(lambda: _gen_shift(rng, allow_high=(ks >= 1e-6)), ks)
+        elif t % 4 == 0: one(lambda: _gen_shift(rng), ks)
         elif t % 4 == 1: one(lambda: _gen_fit(rng), ks)
         elif t % 4 == 2: one(lambda: _gen_equiv(rng), ks)
         else: one(lambda: _gen_reuse(rng), ks)
@@ -363,6 +368,9 @@ def _impl_equiv(c):
         reps['multi12'] = _prop(c, lentil.Wavefront(WL) * mk(base) * t1 * t2, c['prop_shape'])
         reps['multi21'] = _prop(c, lentil.Wavefront(WL) * t2 * mk(base) * t1, c['prop_shape'])
         reps['multiw'] = _prop(c, lentil.Wavefront(WL, tilt=[a * thx, (1 - a) * thy]) * mk(base) * t2, c['prop_shape'])
+        # every tilt carrier BEFORE the first array-valued plane (the wavefront field is still a scalar there)
+        reps['pre12'] = _prop(c, lentil.Wavefront(WL) * t1 * t2 * mk(base), c['prop_shape'])
+        reps['prew2'] = _prop(c, lentil.Wavefront(WL, tilt=[a * thx, (1 - a) * thy]) * t2 * mk(base), c['prop_shape'])
         # half in the OPD, half as metadata
         half = base + 0.5 * _ramp(c, 0) * (lab > 0)
         reps['half'] = _prop(c, lentil.Wavefront(WL) * mk(half) * lentil.Tilt(x=0.5 * thx, y=0.5 * thy), c['prop_shape'])
@@ -426,9 +434,59 @@ def impl(c):
     except NotImplementedError as e:
         return {'exc': 'NotImplementedError', 'msg': str(e)[:200]}
 
+# ------------------------------------------------------------------------------------------ known findings
+KF_FIT, KF_DISP = 'KF-C04-fit-rank-cutoff-tiny-pixelscale', 'KF-C04-dispersive-solver-tiny-lengths'
+
+def matches_finding(kf, c, msg):
+    _use(c)
+    if not isinstance(msg, str): return False
+    if kf.get('id') == KF_FIT:
+        # input class: a plane with more than 2**18 samples whose pixel scale is below 1e-6/64 m; outcome: the recorded tilt is not the LS tilt
+        return bool(c.get('kind') == 'fit' and c.get('big') and max(c['px']) < 1e-6 / 32 and 'is not the least-squares tip/tilt' in msg)
+    if kf.get('id') == KF_DISP:
+        # input class: a higher-order DispersiveTilt with every length below 1e-6 of the usual scale; outcome: the solver's answer is off the contract
+        return bool(c.get('kind') == 'shift' and KS < 1e-6 and any(e['k'] == 'dh' for e in c['tilts'])
+                    and (msg.startswith('dispersive displacement') or msg.startswith('dh:')))
+    return False
+
+def replay_finding(kf):
+    vlib.import_lentil()
+    import lentil
+    if kf.get('id') == KF_FIT:
+        w = kf['witness']; m, n = w['shape']; px = w['pixelscale']; thx, thy = w['angles']
+        r = np.arange(m)[:, None] - m // 2; c = np.arange(n)[None, :] - n // 2
+        p = lentil.Pupil(amplitude=1, opd=thx * r * px - thy * c * px, mask=np.ones((m, n)), pixelscale=px, focal_length=1.0).fit_tilt()
+        rec = (p.tilt[0].y, p.tilt[0].x)
+        return bool(abs(rec[0] - thx) > 1e-3 * abs(thx) or abs(rec[1] - thy) > 1e-3 * abs(thy))
+    if kf.get('id') == KF_DISP:
+        w = kf['witness']
+        d = lentil.DispersiveTilt(trace=w['trace'], dispersion=w['dispersion'])
+        x, y = (float(np.ravel(v)[0]) for v in d.shift(wavelength=w['wavelength'], xs=0.0, ys=0.0))
+        lam = float(np.polyval(w['dispersion'], float(_arc(w['trace'], x))))
+        return bool(abs(lam - w['wavelength']) > 1e-4 * w['wavelength'])
+    return False
+
 # ------------------------------------------------------------------------------------------ model requests / compare
-def _tj(e):
+def _solve_dh(e, wl):
+    """the harness' own solution of the two equations a higher-order DispersiveTilt solves numerically (independent of scipy.optimize):
+    dist = the root of polyval(dispersion, d) = wl of smallest magnitude (the one a search started at 0 reaches), x = the abscissa whose
+    arc length along the trace is dist (bisection on the Gauss-Legendre arc length)"""
+    dp = list(e['disp']); dp[-1] = dp[-1] - wl
+    roots = [r.real for r in np.roots(dp) if abs(r.imag) <= 1e-9 * (abs(r.real) + 1e-300)]
+    if not roots: return None
+    dist = min(roots, key=abs)
+    for _ in range(3):                                   # polish (Newton) in double precision
+        dist = dist - (np.polyval(e['disp'], dist) - wl) / np.polyval(np.polyder(e['disp']), dist)
+    lo, hi = (0.0, dist) if dist >= 0 else (dist, 0.0)   # |x| <= |arc length|
+    for _ in range(200):
+        mid = 0.5 * (lo + hi)
+        if float(_arc(e['trace'], mid)) < dist: lo = mid
+        else: hi = mid
+    return 0.5 * (lo + hi)
+
+def _tj(e, wl=None):
     if e['k'] == 'a': return {'k': 'a', 'x': vlib.fbits(e['x']), 'y': vlib.fbits(e['y'])}
+    if e['k'] == 'dh': return {'k': 'dh', 'trace': vlib.fl(e['trace']), 'x': vlib.fbits(float(_solve_dh(e, wl)))}
     return {'k': 'd', 'trace': vlib.fl(e['trace']), 'disp': vlib.fl(e['disp'])}
 
 def requests(c, io):
@@ -436,8 +494,10 @@ def requests(c, io):
     if c.get('nomodel'): return []
     if 'exc' in io: return []
     if c['kind'] == 'shift':
-        if any(e['k'] == 'dh' for e in c['tilts']): return []
-        return [{'op': 'c04.shift', 'tilts': [_tj(e) for e in c['tilts']], 'z': vlib.fbits(Z), 'wl': vlib.fbits(c['wl']), 'du': vlib.fl(c['du']), 'os': c['os']}]
+        # higher-order dispersive elements enter the model with the harness' own root of their residual equations (contract DispersiveSolved)
+        if any(e['k'] == 'dh' and _solve_dh(e, c['wl']) is None for e in c['tilts']): return []
+        if KS < 1e-6 and any(e['k'] == 'dh' for e in c['tilts']): return []      # class of KF-C04-dispersive-solver-tiny-lengths: oracle only
+        return [{'op': 'c04.shift', 'tilts': [_tj(e, c['wl']) for e in c['tilts']], 'z': vlib.fbits(Z), 'wl': vlib.fbits(c['wl']), 'du': vlib.fl(c['du']), 'os': c['os']}]
     if c['kind'] == 'fit':
         m_, n_ = c['shape']
         def seg_t(opd, masks, rec):
@@ -487,8 +547,10 @@ def compare(c, io, mo):
         m = mo[0]
         # relative to the size of the components that are summed (cancellation between large elements is harmless)
         sc = max(1e-3, sum(abs(v) for e in io['each_ij'] for v in e))
-        if not _close(io['ij'], vlib.unfl(m['ij']), sc, 1e-9): return f"Field.shift ij: impl {io['ij']} model {vlib.unfl(m['ij'])}"
-        if not _close(io['xy'], vlib.unfl(m['xy']), sc, 1e-9): return f"Field.shift xy: impl {io['xy']} model {vlib.unfl(m['xy'])}"
+        # lists with a numerically solved (higher-order) element agree to the accuracy of scipy.optimize.leastsq, the others to rounding
+        tol = 2e-6 if any(e['k'] == 'dh' for e in c['tilts']) else 1e-9
+        if not _close(io['ij'], vlib.unfl(m['ij']), sc, tol): return f"Field.shift ij: impl {io['ij']} model {vlib.unfl(m['ij'])}"
+        if not _close(io['xy'], vlib.unfl(m['xy']), sc, tol): return f"Field.shift xy: impl {io['xy']} model {vlib.unfl(m['xy'])}"
         return None
     if c['kind'] == 'fit':
         sc = max(abs(v) for v in c['opd']) + 1e-12
@@ -517,9 +579,11 @@ def compare(c, io, mo):
     return None
 
 # ------------------------------------------------------------------------------------------ oracle (real code only)
+_LEGGAUSS = {}
 def _arc(trace, x, n=400):
-    """arc length of polyval(trace) from 0 to x (Gauss-Legendre)"""
-    xs, ws = np.polynomial.legendre.leggauss(n)
+    """arc length of polyval(trace) from 0 to x (Gauss-Legendre; nodes computed once)"""
+    if n not in _LEGGAUSS: _LEGGAUSS[n] = np.polynomial.legendre.leggauss(n)
+    xs, ws = _LEGGAUSS[n]
     t = 0.5 * x * (xs + 1)
     return 0.5 * x * np.sum(ws * np.sqrt(1 + np.polyval(np.polyder(trace), t) ** 2))
 
@@ -622,16 +686,20 @@ def _oracle_fit(c, io):
         b2 = np.array(io['opd1u']).reshape(m, n)
         if np.abs(b2 - (after1 + np.array(c['update']).reshape(m, n))).max() > 1e-12 * sc: return 'opd update not applied'
         k = c['nseg']
-        if len(io['tilt2']) != 2 * k: return f"{len(io['tilt2'])} tilts after the second fit, expected {2 * k}"
-        r = check(b2, np.array(io['opd2']).reshape(m, n), io['tilt2'][k:], 'second fit_tilt')
+        # what the plane has recorded per segment after the second fit, as a TOTAL angle (segment j owns tilt[j::nseg]); how many Tilt
+        # objects carry it is not prescribed. The second fit's contribution is that total minus what the first fit recorded.
+        if len(io['tilt2']) == 0 or len(io['tilt2']) % k: return f"{len(io['tilt2'])} recorded tilts after the second fit do not divide among {k} segments"
+        tot2 = [[sum(t[0] for t in io['tilt2'][j::k]), sum(t[1] for t in io['tilt2'][j::k])] for j in range(k)]
+        second = [[tot2[j][0] - io['tilt1'][j][0], tot2[j][1] - io['tilt1'][j][1]] for j in range(k)]
+        r = check(b2, np.array(io['opd2']).reshape(m, n), second, 'second fit_tilt (recorded total minus the first fit)')
         if r: return r
-        rec_tot = [[a[0] + b[0], a[1] + b[1]] for a, b in zip(io['tilt1'], io['tilt2'][k:])]
+        rec_tot = tot2
     # multiply hands every recorded tilt of a segment to that segment's field
     nfit = (2 if c['update'] is not None else 1) + (1 if pre else 0)
     if pre: rec_tot = [[a[0] + b[0], a[1] + b[1]] for a, b in zip(rec_tot, pre)]
     if len(io['field_shift']) == c['nseg']:
         for k in range(c['nseg']):
-            if io['field_ntilt'][k] != nfit: return f"field of segment {k} carries {io['field_ntilt'][k]} tilt elements, the plane recorded {nfit} for it"
+            if io['field_ntilt'][k] == 0 and nfit: return f"field of segment {k} carries no tilt element, the plane recorded {nfit} for it"
             want = [Z * rec_tot[k][0] / 3e-5 * 2, -Z * rec_tot[k][1] / 5e-5 * 2]
             if not _close(io['field_shift'][k], want, max(1e-3, abs(want[0]), abs(want[1])), 1e-9):
                 return f"segment {k}: field shift {io['field_shift'][k]} is not that of the sum of its recorded tilts {want}"
@@ -684,7 +752,7 @@ def _oracle_equiv(c, io):
     # direction and per-axis pixel size: the shift handed to the propagation for a Tilt plane / wavefront tilt
     if c['nseg'] == 1:
         want = list(c['tilt_px'][0])
-        for name in ('plane', 'plane_first', 'wave', 'multi12', 'multi21', 'multiw'):
+        for name in ('plane', 'plane_first', 'wave', 'multi12', 'multi21', 'multiw', 'pre12', 'prew2'):
             if not reps[name]['shifts']: return f"'{name}': the wavefront lost its field"
             got = reps[name]['shifts'][0]
             if not _close(got, want, max(1e-3, abs(want[0]), abs(want[1])), 1e-9):
